@@ -230,6 +230,20 @@ check("C19",
       AMP_NOTE + " The C++ text is read with regular expressions; sA_0 is exempt for the shipped model, which does not define sA0.",
       "DESIGN.md section 5, C19")
 
+check("C20",
+      "TLA+ model of the process-wide reader state (spec/AmpSession.tla: shared particle set, class-attribute look-up of the "
+      "cartesian switch) model-checked with TLC for two designs; TLC-emitted histories executed in fresh interpreters and "
+      "compared with single fresh calls",
+      "TLC checks HistoryIndependent over every history of <= 4 calls (3 reader classes x 4 files) for the per-read design "
+      "and refutes the accumulating one (F8, F13). Histories of 2 and 3 calls emitted by TLC (a sample per run) are executed "
+      "each in its own fresh interpreter over 4 real files (disjoint / overlapping resonances, option absent / 0 / 1); every "
+      "call's observable result (amplitudes, tables, text as a line multiset without the timestamp) must equal that of the "
+      "same single call in a fresh interpreter; single calls are repeated under several PYTHONHASHSEED values; histories are "
+      "re-run in a second fresh process and must reproduce the text exactly.",
+      "Trusts TLC and harness/c20.py; each fresh interpreter costs ~10 s (imports + particle look-ups), so a run samples the "
+      "emitted histories (seeded) rather than executing all of them.",
+      "DESIGN.md section 5, C20")
+
 ALL = [f"C{i:02d}" for i in range(1, 21)]
 
 
